@@ -3,7 +3,7 @@ Line-protocol driver of the model: one JSON object per line in, one per line out
 Imports the executable model only (core Lean + Lean.Data.Json), so it links as a native binary.
 -/
 import Lean.Data.Json
-import GontainerModel.Model.Compile
+import GontainerModel.Model.Runner
 open Lean GM
 
 namespace Drv
@@ -241,6 +241,38 @@ def handle (j : Json) : Json :=
       let g := Output.buildGraph o
       let cycles := (jarr j "cycles").toList.map fun c => (c.getArr?.toOption.getD #[]).toList.filterMap (·.getStr?.toOption)
       Json.mkObj [("valid", Json.arr (cycles.map fun c => Json.bool (Graph.isCycle g c)).toArray)]
+  | "run" =>
+    let fl := (j.getObjVal? "flags").toOption.getD Json.null
+    let gb := fun (k : String) => (fl.getObjValAs? Bool k).toOption.getD false
+    let globT := (j.getObjVal? "glob").toOption.getD Json.null
+    let cleanT := (j.getObjVal? "clean").toOption.getD Json.null
+    let readT := (j.getObjVal? "read").toOption.getD Json.null
+    let buildJ := (j.getObjVal? "build").toOption.getD Json.null
+    let strs := fun (a : Array Json) => a.toList.filterMap (·.getStr?.toOption)
+    let w : Runner.World :=
+      { flags := { quiet := gb "quiet", stub := gb "stub", ignoreParams := gb "ignoreParams", ignoreServices := gb "ignoreServices" },
+        patterns := strs (jarr j "patterns"), outPath := jstr j "out", version := jstr j "version",
+        glob := fun p => match globT.getObjVal? p with
+          | .ok g => match g.getObjVal? "ok" with
+            | .ok (Json.arr a) => .ok (strs a)
+            | _ => .error (jstr g "err")
+          | .error _ => .ok [],
+        clean := fun s => (cleanT.getObjValAs? String s).toOption.getD s,
+        read := fun f => match readT.getObjVal? f with
+          | .ok r => match r.getObjVal? "ok" with
+            | .ok i => .ok (inputOfJson i)
+            | .error _ => .error (strs (jarr r "errs"))
+          | .error _ => .error ["<no read result supplied>"],
+        build := fun _ _ => match buildJ.getObjVal? "ok" with
+          | .ok (Json.str t) => .ok t
+          | _ => match strs (jarr buildJ "err") with
+            | e :: es => .error (e, es)
+            | [] => .error ("<no build result supplied>", []),
+        write := fun _ _ => joptS j "write" }
+    let ce := strs (jarr j "cycles")
+    let r := Runner.run w (fun _ => ce)
+    Json.mkObj [("exit", Json.num r.exit), ("printed", strList r.printed), ("errors", strList r.errors),
+      ("file", match r.file with | .untouched => Json.str "untouched" | .wrote _ t => Json.mkObj [("wrote", t)])]
   | "version" =>
     Json.mkObj [("errs", strList (Semver.validateVersion (jstr j "build") (joptS j "given")))]
   | "decodeVersion" =>
